@@ -8,10 +8,14 @@
 #include "tree.h"
 
 static const char *UNI[T_MAXU] = { "10-a.conf", "9-b.conf", "B.conf", "README", "a.conf", ".h.conf", ".conf", "x.conf.bak" };
-static const char *EPN[9] = { "econf_readFileWithCallback", "econf_readConfigWithCallback", "econf_readDirsWithCallback", "econf_readDirsHistoryWithCallback",
+static const char *EPN[11] = { "econf_readFileWithCallback", "econf_readConfigWithCallback", "econf_readDirsWithCallback", "econf_readDirsHistoryWithCallback",
                               "econf_readConfigWithCallback + CONFIG_DIRS option", "econf_readConfigWithCallback, drop-ins only (config name NULL)",
-                              "econf_readFileWithCallback, relative file name", "econf_readDirsWithCallback, relative directories", "econf_readDirsHistoryWithCallback, relative directories" };
-#define NEP 9
+                              "econf_readFileWithCallback, relative file name", "econf_readDirsWithCallback, relative directories", "econf_readDirsHistoryWithCallback, relative directories",
+                              "econf_readDirsWithCallback, the callback itself reads a layered configuration before it answers",
+                              "econf_readDirsHistoryWithCallback, the callback itself reads a layered configuration before it answers" };
+#define NEP 11
+static int reentrant;          /* the callback consults its own policy files through the library (same thread, nested call) */
+static char pol0[400], pol1[400];
 static const char *rel0, *rel1;   /* relative spellings of the two directories / the single file */
 static int nu = 3, pairs = 0;
 static char root[300], options[600];
@@ -21,6 +25,14 @@ static int rej1, rej2;             /* 0 = none, i = the i-th callback call (1-ba
 
 static void setup(int ep)
 {
+  reentrant = ep >= 9;
+  if (reentrant) {
+    char cmd[1200]; snprintf(pol0, sizeof pol0, "%s/policy/usr", mc_work); snprintf(pol1, sizeof pol1, "%s/policy/etc", mc_work);
+    snprintf(cmd, sizeof cmd, "mkdir -p %s/policy.conf.d %s/policy.conf.d", pol0, pol1); if (system(cmd) != 0) mc_die("mkdir");
+    char p[600]; snprintf(p, sizeof p, "%s/policy.conf", pol0); mc_write_file(p, "allow=all\n", 10);
+    snprintf(p, sizeof p, "%s/policy.conf.d/10-a.conf", pol0); mc_write_file(p, "POLICY=vendor\n", 14);
+    snprintf(p, sizeof p, "%s/policy.conf.d/20-b.conf", pol1); mc_write_file(p, "POLICY=local\n[S]\nPOLICY=local\n", 30);
+  }
   memset(&ts, 0, sizeof ts);
   snprintf(root, sizeof root, "%s/r%d", mc_work, ep);
   snprintf(ts.name, sizeof ts.name, "cfg"); snprintf(ts.suffix, sizeof ts.suffix, ".conf");
@@ -46,7 +58,7 @@ static void setup(int ep)
     snprintf(ts.layer_dir[0], sizeof ts.layer_dir[0], "%s/usr/etc", root);
     snprintf(ts.layer_dir[1], sizeof ts.layer_dir[1], "%s/etc", root);
   }
-  if (ep >= 6) {
+  if (ep >= 6 && ep <= 8) {
     /* the caller passes relative names; the working directory is the root of this entry point's tree */
     static char base[320]; snprintf(base, sizeof base, "%s", root);
     t_rel_base = base;
@@ -79,6 +91,12 @@ static bool cb(const char *filename, const void *data)
   ctx_t *c = (ctx_t *)(uintptr_t)data;
   tree_cblog *log = &c->log;
   int call = log->n + 1;
+  if (reentrant) {
+    /* what a real check may do: look at its own configuration through the same library */
+    econf_file *pk = NULL;
+    if (econf_readDirs(&pk, pol0, pol1, "policy", "conf", "=", "#") == ECONF_SUCCESS) { char *v = NULL; if (econf_getStringValue(pk, NULL, "POLICY", &v) != ECONF_SUCCESS || !v || strcmp(v, "local")) mc_fail("policy", "the nested read inside the callback returned a wrong configuration"); free(v); econf_freeFile(pk); }
+    else mc_fail("policy", "the nested read inside the callback failed");
+  }
   if (log->n < T_MAXLOG) { log->path[log->n] = xstrdup(filename); log->data[log->n] = data; log->n++; }
   if (call == rej1 || call == rej2) { if (!c->first_reject) c->first_reject = call; return false; }
   /* accepted: only now does the real content appear */
@@ -124,7 +142,7 @@ static void exec(void)
     if (rc != ECONF_SUCCESS) { mc_fail(sig.s, "options rejected: %d", (int)rc); goto out; }
     kf = own;
     rc = econf_readConfigWithCallback(&kf, "proj", "/usr/lib", mc_tag == 5 ? NULL : "cfg", "conf", "=", "#", cb, &ctx); break;
-  case 2: rc = econf_readDirsWithCallback(&kf, ts.layer_dir[0], ts.layer_dir[1], "cfg", "conf", "=", "#", cb, &ctx); break;
+  case 2: case 9: rc = econf_readDirsWithCallback(&kf, ts.layer_dir[0], ts.layer_dir[1], "cfg", "conf", "=", "#", cb, &ctx); break;
   default: rc = econf_readDirsHistoryWithCallback(&hist, &hsize, ts.layer_dir[0], ts.layer_dir[1], "cfg", "conf", "=", "#", cb, &ctx); break;
   }
   mc_st->libcalls++;
@@ -140,7 +158,7 @@ static void exec(void)
   if (ctx.first_reject) {
     /* (4) */
     if (rc != ECONF_PARSING_CALLBACK_FAILED) mc_fail(sig.s, "callback rejected call %d but the read returned %d (%s); %s", ctx.first_reject, (int)rc, econf_errString(rc), sig.s);
-    if ((mc_tag == 3 || mc_tag == 8)) {
+    if ((mc_tag == 3 || mc_tag == 8 || mc_tag == 10)) {
       if (hist != NULL && hist != SENT_HIST) mc_fail(sig.s, "a history was handed back although the callback rejected a file; %s", sig.s);
     } else if (kf != NULL && kf != SENT_KF) {
       obs_cfg o; sbuf err = {0};
@@ -152,7 +170,7 @@ static void exec(void)
     if (rc != ECONF_NOFILE) mc_fail(sig.s, "no file, rc=%d; %s", (int)rc, sig.s);
   } else if (rc != ECONF_SUCCESS) {
     mc_fail(sig.s, "all files accepted but the read failed with %d (%s); %s", (int)rc, econf_errString(rc), sig.s);
-  } else if ((mc_tag == 3 || mc_tag == 8)) {
+  } else if ((mc_tag == 3 || mc_tag == 8 || mc_tag == 10)) {
     /* (1)+(3)+(5) per history member */
     if (hsize != (size_t)nlist) mc_fail(sig.s, "history has %zu members, %d files were consulted; %s", hsize, nlist, sig.s);
     for (size_t i = 0; i < hsize && hist && hist != SENT_HIST; i++) {
@@ -195,7 +213,7 @@ static void exec(void)
     sb_free(&err); obs_free(&o);
   }
   /* release */
-  if ((mc_tag == 3 || mc_tag == 8)) {
+  if ((mc_tag == 3 || mc_tag == 8 || mc_tag == 10)) {
     if (hist && hist != SENT_HIST) { for (size_t i = 0; i < hsize; i++) econf_freeFile(hist[i]); free(hist); }
   } else if (kf && kf != SENT_KF) econf_freeFile(kf);
 out:
